@@ -17,6 +17,7 @@ class State(object):
         self.writes = []            # [(addr64, byte)] oldest first
         self.events = []            # observable events: ('write', addr64, byte) / ('call', name, args)
         self.pc = []                # path condition (list of z3 Bool)
+        self.accesses = []          # byte addresses (z3 64-bit terms) read or written along the path
 
     def copy(self):
         s = State(self.ref0)
@@ -24,6 +25,7 @@ class State(object):
         s.writes = list(self.writes)
         s.events = list(self.events)
         s.pc = list(self.pc)
+        s.accesses = list(self.accesses)
         return s
 
     def reg(self, name, size):
@@ -57,6 +59,7 @@ class Exec(Ref):
         for i in range(nbytes):
             a = p + z3.BitVecVal(i, psize)
             a64 = z3.ZeroExt(64 - psize, a) if psize < 64 else a
+            self.state.accesses.append(a64)
             bs.append(self.state.load(a64))
         r = bs[0]
         for b in bs[1:]:
@@ -90,6 +93,7 @@ def exec_assignblk(state, assignblk, record_events=True):
         for i in range(size // 8):
             a = a64_of(p, psize, i)
             byte = z3.Extract(8 * i + 7, 8 * i, v)
+            state.accesses.append(a)
             state.writes.append((a, byte))
             if record_events:
                 state.events.append(('write', a, byte))
@@ -114,3 +118,188 @@ def simplify_dst_options(dst_expr):
             out.append((conds, e))
     rec(dst_expr, [])
     return out
+
+
+# ------------------------------------------------------------------------------------------------
+# Bounded path exploration of an IRCFG and equivalence of two graphs for every initial state
+
+class Path(object):
+    def __init__(self, state, pc, exit_, cut=False, blocks=()):
+        self.state = state
+        self.pc = pc
+        self.exit = exit_          # ('loc', key) | ('int', value) | ('dyn', z3 term) | ('cut', why)
+        self.cut = cut
+        self.blocks = list(blocks)
+
+
+def dst_options(ex, dst_expr, loc_db):
+    """Possible successors of an IRDst source expression evaluated through `ex` (Exec on the old state):
+    list of (z3 condition, target) with target ('loc', LocKey) / ('dyn', term)."""
+    out = []
+
+    def rec(e, cond):
+        if e.is_cond():
+            c = ex.tr(e.cond) != 0
+            rec(e.src1, z3.And(cond, c))
+            rec(e.src2, z3.And(cond, z3.Not(c)))
+        elif e.is_loc():
+            out.append((cond, ('loc', e.loc_key)))
+        elif e.is_int() and loc_db is not None and loc_db.get_offset_location(int(e)) is not None:
+            out.append((cond, ('loc', loc_db.get_offset_location(int(e)))))
+        elif e.is_int():
+            out.append((cond, ('int', int(e))))
+        else:
+            out.append((cond, ('dyn', ex.tr(e))))
+    rec(dst_expr, z3.BoolVal(True))
+    return out
+
+
+class Explorer(object):
+    def __init__(self, ircfg, irdst, loc_db, max_blocks=24, max_visits=3, timeout_ms=10000, track_order=False):
+        self.g = ircfg
+        self.irdst = irdst
+        self.loc_db = loc_db
+        self.max_blocks = max_blocks
+        self.max_visits = max_visits
+        self.solver = z3.Solver()
+        self.solver.set('timeout', timeout_ms)
+        self.queries = 0
+        self.track_order = track_order
+        self.deadline = None
+
+    def feasible(self, pcs):
+        self.queries += 1
+        self.solver.push()
+        self.solver.add(*pcs)
+        r = self.solver.check()
+        self.solver.pop()
+        return r != z3.unsat, r == z3.unknown
+
+    def run(self, head, ref0, pre=()):
+        """All bounded paths from `head` under precondition `pre` (list of z3 Bool)."""
+        paths = []
+        st0 = State(ref0)
+        st0.pc = list(pre)
+        st0.order = []
+        work = [(st0, head, [], {})]
+        import time
+        while work:
+            st, loc, hist, visits = work.pop()
+            if self.deadline is not None and time.time() > self.deadline:
+                paths.append(Path(st, st.pc, ('cut', 'budget'), cut=True, blocks=hist))
+                continue
+            blk = self.g.blocks.get(loc)
+            if blk is None:
+                paths.append(Path(st, st.pc, ('loc', loc), blocks=hist))
+                continue
+            if len(hist) >= self.max_blocks or visits.get(loc, 0) >= self.max_visits:
+                paths.append(Path(st, st.pc, ('cut', 'bound'), cut=True, blocks=hist))
+                continue
+            visits = dict(visits)
+            visits[loc] = visits.get(loc, 0) + 1
+            hist = hist + [loc]
+            opts = None
+            for ab in blk:
+                ex = Exec(st)
+                if self.irdst in ab:
+                    opts = dst_options(ex, ab[self.irdst], self.loc_db)
+                if self.track_order:
+                    for d in ab:
+                        if d.is_id() and d != self.irdst:
+                            st.order.append((d.name, d.size))
+                exec_assignblk(st, ab)
+            if opts is None:
+                paths.append(Path(st, st.pc, ('cut', 'no IRDst'), cut=True, blocks=hist))
+                continue
+            for cond, tgt in opts:
+                cond = z3.simplify(cond)
+                if z3.is_false(cond):
+                    continue
+                pcs = st.pc + ([cond] if not z3.is_true(cond) else [])
+                if not z3.is_true(cond):
+                    ok, unk = self.feasible(pcs)
+                    if not ok:
+                        continue
+                st2 = st.copy()
+                st2.order = list(getattr(st, 'order', []))
+                st2.pc = pcs
+                if tgt[0] == 'loc' and tgt[1] in self.g.blocks:
+                    work.append((st2, tgt[1], hist, visits))
+                else:
+                    paths.append(Path(st2, pcs, tgt, blocks=hist))
+        return paths
+
+
+def events_equal(ev1, ev2):
+    """z3 Bool: the two observable event sequences are the same (None if shapes differ)."""
+    if len(ev1) != len(ev2):
+        return None
+    cs = []
+    for a, b in zip(ev1, ev2):
+        if a[0] != b[0]:
+            return None
+        if a[0] == 'write':
+            if a[1].sort() != b[1].sort() or a[2].sort() != b[2].sort():
+                return None
+            cs.append(z3.And(a[1] == b[1], a[2] == b[2]))
+        else:
+            if a[1] != b[1] or len(a[2]) != len(b[2]):
+                return None
+            cs += [x == y for x, y in zip(a[2], b[2])]
+    return z3.And(*cs) if cs else z3.BoolVal(True)
+
+
+def exits_equal(e1, e2):
+    if e1[0] != e2[0]:
+        return None
+    if e1[0] == 'dyn':
+        return e1[1] == e2[1] if e1[1].sort() == e2[1].sort() else None
+    return z3.BoolVal(e1[1] == e2[1])
+
+
+def base_key(term):
+    """'Symbolic base' of an address term: the set of free initial-state variables it is built on, plus whether it
+    depends on a value loaded from memory.  Addresses with different keys are assumed not to alias (miasm's
+    documented non-aliasing assumption for different symbolic bases)."""
+    names = set()
+    has_mem = [False]
+    seen = set()
+
+    def walk(t):
+        if t.get_id() in seen:
+            return
+        seen.add(t.get_id())
+        if z3.is_app(t):
+            d = t.decl()
+            if d.kind() == z3.Z3_OP_UNINTERPRETED:
+                if t.num_args() == 0:
+                    nm = d.name()
+                    names.add(nm[:-5] if nm.endswith('_init') else nm)   # X_init names the initial value of X
+                else:
+                    has_mem[0] = True
+                    return          # the loaded value is a base of its own
+            for c in t.children():
+                walk(c)
+    walk(term)
+    return (frozenset(names), has_mem[0])
+
+
+def non_aliasing_hypotheses(access_lists):
+    """Pairwise distinctness of byte addresses that belong to different symbolic bases."""
+    groups = {}
+    seen = set()
+    for lst in access_lists:
+        for a in lst:
+            a = z3.simplify(a)
+            if a.get_id() in seen:
+                continue
+            seen.add(a.get_id())
+            groups.setdefault(base_key(a), []).append(a)
+    keys = list(groups)
+    hyp = []
+    for i in range(len(keys)):
+        for j in range(i + 1, len(keys)):
+            for a in groups[keys[i]]:
+                for b in groups[keys[j]]:
+                    hyp.append(a != b)
+    return hyp
